@@ -159,6 +159,7 @@ func vsleep(d time.Duration) {
 func familyVerify(t *testing.T) {
 	rng := T.rng
 	synctest.Test(t, func(t *testing.T) {
+		defer guard()
 		nScen := T.size(40, 300)
 		for sc := 0; sc < nScen; sc++ {
 			R := 1000000
@@ -216,6 +217,7 @@ func familyVerify(t *testing.T) {
 func familyLimiter(t *testing.T) {
 	rng := T.rng
 	synctest.Test(t, func(t *testing.T) {
+		defer guard()
 		limits := []int{10, 37, 100, 1000}
 		nScen := T.size(16, 80)
 		for sc := 0; sc < nScen; sc++ {
